@@ -135,5 +135,12 @@ with np.errstate(all="ignore"):
             if not (isinstance(r_, ma.MaskedArray) and r_.shape == um.shape and bool(ma.getmaskarray(r_)[1]) and r_ is not um and not np.shares_memory(r_.data, um.data)):
                 bad_unary.append("%s.%s" % (ns.__name__, fn_))
 check("A25 one-argument element-wise functions keep shape and missing cells and return a fresh masked array %s" % bad_unary, not bad_unary)
+hm = ma.array([1.0, 2.0, 3.0], mask=[False, True, False])
+hm.harden_mask()
+hm[np.array([True, True, False])] = 9.0
+hard_ok = hm.mask.tolist() == [False, True, False] and hm.data[1] == 2.0
+hm.soften_mask()
+hm[np.array([False, True, False])] = 7.0
+check("A26 a hard mask keeps missing cells through item stores; soften_mask() restores A9", hard_ok and hm.mask.tolist() == [False, False, False])
 print("%d axiom check(s) failed" % len(FAIL))
 sys.exit(1 if FAIL else 0)
